@@ -403,99 +403,18 @@ function forkBool(formula) {           // returns a concrete boolean, forking on
   return decide([formula, `(not ${formula})`]) === 0;
 }
 
-// ---- JS regex -> SMT-LIB regular expression (subset: literals, escapes, classes, groups, alternation, quantifiers, anchors)
+// ---- JS regex -> SMT-LIB regular expression (subset: literals, escapes, classes, groups, alternation, quantifiers, outer anchors)
 function regexToSmt(re) {
-  const src = re.source;
+  let src = re.source;
   if (re.flags.replace(/[gsu]/g, '') !== '') throw new Unmodelled('regex flags ' + re.flags);
-  let i = 0;
-  const ALL = 're.all', ANYCH = 're.allchar';
-  function range(a, b) { return `(re.range ${smtStr(a)} ${smtStr(b)})`; }
-  const DIGIT = range('0', '9');
-  const WORD = `(re.union ${range('a', 'z')} ${range('A', 'Z')} ${DIGIT} (str.to_re "_"))`;
-  const SPACE = `(re.union (str.to_re " ") (str.to_re ${smtStr('\t')}) (str.to_re ${smtStr('\n')}) (str.to_re ${smtStr('\r')}))`;
-  function cls(ch) {
-    switch (ch) {
-      case 'd': return DIGIT; case 'w': return WORD; case 's': return SPACE;
-      case 'D': return `(re.diff ${ANYCH} ${DIGIT})`; case 'W': return `(re.diff ${ANYCH} ${WORD})`; case 'S': return `(re.diff ${ANYCH} ${SPACE})`;
-      case 'n': return `(str.to_re ${smtStr('\n')})`; case 't': return `(str.to_re ${smtStr('\t')})`; case 'r': return `(str.to_re ${smtStr('\r')})`;
-      default: if (/[a-zA-Z0-9]/.test(ch)) throw new Unmodelled('regex escape \\' + ch); return `(str.to_re ${smtStr(ch)})`;
-    }
-  }
-  function alt() {
-    const parts = [seq()];
-    while (src[i] === '|') { i++; parts.push(seq()); }
-    return parts.length === 1 ? parts[0] : `(re.union ${parts.join(' ')})`;
-  }
-  function seq() {
-    const items = [];
-    while (i < src.length && src[i] !== '|' && src[i] !== ')') items.push(quant());
-    if (items.length === 0) return '(str.to_re "")';
-    return items.length === 1 ? items[0] : `(re.++ ${items.join(' ')})`;
-  }
-  function quant() {
-    let a = atom();
-    for (;;) {
-      const c = src[i];
-      if (c === '*') { a = `(re.* ${a})`; i++; } else if (c === '+') { a = `(re.+ ${a})`; i++; } else if (c === '?') { a = `(re.opt ${a})`; i++; } else if (c === '{') {
-        const m = /^\{(\d+)(,(\d*))?\}/.exec(src.slice(i));
-        if (!m) throw new Unmodelled('regex quantifier');
-        i += m[0].length;
-        const lo = Number(m[1]);
-        if (m[2] === undefined) a = `((_ re.loop ${lo} ${lo}) ${a})`;
-        else if (m[3] === '') a = `(re.++ ((_ re.loop ${lo} ${lo}) ${a}) (re.* ${a}))`;
-        else a = `((_ re.loop ${lo} ${Number(m[3])}) ${a})`;
-      } else break;
-      if (src[i] === '?') throw new Unmodelled('lazy quantifier');
-    }
-    return a;
-  }
-  function atom() {
-    const c = src[i];
-    if (c === '(') {
-      i++;
-      if (src[i] === '?') { if (src[i + 1] === ':') i += 2; else throw new Unmodelled('regex group (?' + src[i + 1]); }
-      const r = alt();
-      if (src[i] !== ')') throw new Unmodelled('regex: unbalanced group');
-      i++;
-      return r;
-    }
-    if (c === '[') {
-      i++;
-      let neg = false;
-      if (src[i] === '^') { neg = true; i++; }
-      const parts = [];
-      while (src[i] !== ']') {
-        let a;
-        if (src[i] === '\\') { i++; const e = src[i++]; if ('dwsDWS'.includes(e)) { parts.push(cls(e)); continue; } a = e === 'n' ? '\n' : e === 't' ? '\t' : e === 'r' ? '\r' : e; } else a = src[i++];
-        if (src[i] === '-' && src[i + 1] !== ']') { i++; let b = src[i++]; if (b === '\\') b = src[i++]; parts.push(range(a, b)); } else parts.push(`(str.to_re ${smtStr(a)})`);
-      }
-      i++;
-      const u = parts.length === 1 ? parts[0] : `(re.union ${parts.join(' ')})`;
-      return neg ? `(re.diff ${ANYCH} ${u})` : u;
-    }
-    if (c === '.') { i++; return `(re.diff ${ANYCH} (re.union (str.to_re ${smtStr('\n')}) (str.to_re ${smtStr('\r')})))`; }
-    if (c === '\\') { i++; return cls(src[i++]); }
-    if (c === '^' || c === '$') throw new Unmodelled('regex anchor inside pattern');
-    i++;
-    return `(str.to_re ${smtStr(c)})`;
-  }
+  const dotAll = re.flags.includes('s');
   let startAnch = false, endAnch = false;
-  if (src[0] === '^') { startAnch = true; i = 1; }
-  let body = src;
-  let end = src.length;
-  if (src.endsWith('$') && !src.endsWith('\\$')) { endAnch = true; end = src.length - 1; }
-  const saved = src;
-  // parse on the slice [i, end)
-  const inner = (() => { const sub = saved.slice(i, end); const sv = { src: sub }; return sub; })();
-  const r = regexToSmtInner(inner);
-  return `(re.++ ${startAnch ? '(str.to_re "")' : ALL} ${r} ${endAnch ? '(str.to_re "")' : ALL})`;
+  if (src.startsWith('^')) { startAnch = true; src = src.slice(1); }
+  if (src.endsWith('$') && !src.endsWith('\\$')) { endAnch = true; src = src.slice(0, -1); }
+  const r = regexBody(src, dotAll);
+  return `(re.++ ${startAnch ? '(str.to_re "")' : 're.all'} ${r} ${endAnch ? '(str.to_re "")' : 're.all'})`;
 }
-function regexToSmtInner(sub) {
-  // re-enter the parser on a pattern without outer anchors
-  const re2 = new RegExp(sub.length ? sub : '(?:)');
-  return regexBody(re2.source === '(?:)' ? '' : sub);
-}
-function regexBody(src) {
+function regexBody(src, dotAll) {
   // a self-contained copy of the recursive-descent parser of regexToSmt over `src`
   let i = 0;
   const ANYCH = 're.allchar';
@@ -553,7 +472,7 @@ function regexBody(src) {
       const u = parts.length === 1 ? parts[0] : `(re.union ${parts.join(' ')})`;
       return neg ? `(re.diff ${ANYCH} ${u})` : u;
     }
-    if (c === '.') { i++; return `(re.diff ${ANYCH} (re.union (str.to_re ${smtStr('\n')}) (str.to_re ${smtStr('\r')})))`; }
+    if (c === '.') { i++; return dotAll ? ANYCH : `(re.diff ${ANYCH} (re.union (str.to_re ${smtStr('\n')}) (str.to_re ${smtStr('\r')})))`; }
     if (c === '\\') { i++; return cls(src[i++]); }
     if (c === '^' || c === '$') throw new Unmodelled('regex anchor inside pattern');
     i++;
@@ -586,6 +505,7 @@ function buildValue(path) {
   if (kind in KIND_TABLE) return KIND_TABLE[kind](path);
   let m;
   if ((m = /^array(\d+)$/.exec(kind))) { const n = Number(m[1]); const a = []; for (let i = 0; i < n; i++) a.push(buildValue(`${path}[${i}]`)); return a; }
+  if (kind === 'sparse2') { const a = [buildValue(`${path}[0]`)]; a.length = 2; return a; }      // [x, <hole>]
   if (kind === 'object') return makeLazyObject(path);
   if (kind === 'map1') { const mm = new Map(); mm.set(buildValue(path + '<k>'), buildValue(path + '<v>')); return mm; }
   if (kind === 'set1') { const ss = new Set(); ss.add(buildValue(path + '<e>')); return ss; }
@@ -690,6 +610,7 @@ Object.assign($S, {
         case 'number': { const v = model['n' + boxId(path)]; return v === undefined ? 0 : (Number.isFinite(v) ? v : { $: 'number', v: String(v) }); }
         case 'string': { const v = model['s' + boxId(path)]; return v === undefined ? '' : v; }
         case 'object': { const props = {}; for (const k of (st.keysAt ? st.keysAt(path) : st.keyPool)) if (st.shape.get(`${path}.has(${JSON.stringify(k)})`) === 1) Object.defineProperty(props, k, { value: conc(`${path}.${k}`), enumerable: true, writable: true, configurable: true }); return { $: 'object', props }; }
+        case 'sparse2': return { $: 'sparse2', first: conc(`${path}[0]`) };
         case 'map1': return { $: 'map', entries: [[conc(path + '<k>'), conc(path + '<v>')]] };
         case 'set1': return { $: 'set', items: [conc(path + '<e>')] };
         default:
@@ -707,6 +628,7 @@ Object.assign($S, {
       case 'undefined': return undefined;
       case 'number': return Number(j.v);
       case 'object': { const o = {}; for (const k of Object.keys(j.props)) Object.defineProperty(o, k, { value: $S.decode(j.props[k]), enumerable: true, writable: true, configurable: true }); return o; }
+      case 'sparse2': { const a = [$S.decode(j.first)]; a.length = 2; return a; }
       case 'map': return new Map(j.entries.map(([k, v]) => [$S.decode(k), $S.decode(v)]));
       case 'set': return new Set(j.items.map((x) => $S.decode(x)));
       case 'map0': return new Map(); case 'set0': return new Set();
